@@ -102,6 +102,9 @@ def standard_configs(rng):
                kw=dict(tle_name="TLE2001_%(satname)s.txt"), cfg=(1, 1, 1, 1), scene="tsm"),
         # no element set within the limit: every angle request takes the approximate fallback, the first and the later ones
         Config("klmGac-stale-tle", "klmGac", ydm_to_ms(2000, 250, 30000000), 30, cfg=(0, 1, 0, 0)),
+        # a pass calibrated with a USER coefficient file (every slope changed) that has no entry for MetOp-C (a file derived
+        # from a release older than that launch): other work may ask that file for the spacecraft it lacks in between
+        Config("klmGac-userfile", "klmGac", ydm_to_ms(2002, 187, 50000000), 30, cfg=(0, 1, 0, 1)),
     ]
     return cs
 
@@ -139,6 +142,23 @@ class Subject:
                 smp[i, j, 0] += 300
                 smp[i, j, 3] += 400
             b.samples = smp.reshape(len(nums), w * 5).astype(np.uint32)
+        self.userfile = None
+        if cfg.name.endswith("-userfile"):
+            import json
+            from importlib.resources import files
+            self.userfile = os.path.join(ctx.scratch, "user_coeffs_partial.json")
+            if not os.path.exists(self.userfile):
+                with open(files("pygac") / "data/calibration.json") as fh:
+                    table = json.load(fh)
+                table.pop("metopc", None)
+                for ent in table.values():
+                    if isinstance(ent, dict):
+                        for c_ in ("channel_1", "channel_2", "channel_3a"):
+                            if c_ in ent and isinstance(ent[c_].get("s0"), (int, float)):
+                                ent[c_]["s0"] = round(ent[c_]["s0"] * 1.5 + 0.01, 6)
+                with open(self.userfile, "w") as fh:
+                    json.dump(table, fh)
+            cfg.kw = dict(cfg.kw, calibration_parameters=dict(coeffs_file=self.userfile))
         # smooth tie points along a plausible track so that interpolation and slerp are well conditioned
         self.builder = b
         self.data = b.tobytes()
